@@ -66,7 +66,8 @@ def lex_line(line, orig=False):
         elif k == "ustr":
             toks.append(tok("ustr", v))
         elif k == "cmt":
-            toks.append(tok("cmt", v))
+            body = v[2:-2] if v.endswith("*)") else v[2:]
+            toks.append(tok("cmt", v, s=body.encode("latin-1", "replace")))
             break
         else:
             toks.append(tok(k, v))
